@@ -11,9 +11,24 @@ theorem lookup_named (db : Db) (n : Name) (v : Ver) (d : Decl) (h : db.lookup (n
   obtain ⟨hc, hp⟩ := lookup_canon db (n, v) d h
   exact ⟨hc, congrArg Prod.fst hp⟩
 
-theorem walk_spec (db : Db) (al : Already) (hal : AlreadyOK db al) (name : Name) (version : Option VerReq)
-    (depth : Nat) (vro : List VroEnt) :
-    ∀ vexpr d r e0, walk db al name version depth vexpr vro = some (d, r, e0) → Canon db d ∧ d.name = name := by
+theorem findVer_named (db : Db) (path : List Nat) (n : Name) (v : VStr) (d : Decl)
+    (h : db.findVer path n v = some d) : Canon db d ∧ d.name = n ∧ d.ver.1 = v := by
+  unfold Db.findVer at h
+  obtain ⟨k, _, hk⟩ := List.exists_of_findSome?_eq_some h
+  obtain ⟨hc, hn⟩ := lookup_named db n (v, k) d hk
+  exact ⟨hc, hn, by rw [(lookup_some db _ d hk).2.2]⟩
+
+theorem tagged_named (db : Db) (path : List Nat) (t : Str) (n : Name) (d : Decl)
+    (h : db.tagged path t n = some d) : Canon db d ∧ d.name = n := by
+  unfold Db.tagged at h
+  obtain ⟨k, _, hk⟩ := List.exists_of_findSome?_eq_some h
+  cases hf : db.tags.find? (fun x => x.1 = t ∧ x.2.1 = n ∧ x.2.2.2 = k) with
+  | none => rw [hf] at hk; cases hk
+  | some x => rw [hf] at hk; exact lookup_named db n x.2.2 d hk
+
+theorem walk_spec (db : Db) (path : List Nat) (al : Already) (hal : AlreadyOK db al) (name : Name)
+    (version : Option VerReq) (depth : Nat) (vro : List VroEnt) :
+    ∀ vexpr d r e0, walk db path al name version depth vexpr vro = some (d, r, e0) → Canon db d ∧ d.name = name := by
   induction vro with
   | nil => intro vexpr d r e0 h; simp [walk] at h
   | cons ent post ih =>
@@ -41,11 +56,9 @@ theorem walk_spec (db : Db) (al : Already) (hal : AlreadyOK db al) (name : Name)
     | tag t =>
       simp only [walk] at h
       split at h
-      · split at h
-        · rename_i d' hl
-          simp at h; obtain ⟨rfl, _, _⟩ := h
-          exact lookup_named db name _ _ hl
-        · exact ih _ _ _ _ h
+      · rename_i d' hl
+        simp at h; obtain ⟨rfl, _, _⟩ := h
+        exact tagged_named db path t name _ hl
       · exact ih _ _ _ _ h
     | version =>
       simp only [walk] at h
@@ -63,7 +76,7 @@ theorem walk_spec (db : Db) (al : Already) (hal : AlreadyOK db al) (name : Name)
             · rename_i d' hb
               simp at h; obtain ⟨rfl, _, _⟩ := h
               cases req with
-              | explicit v => exact lookup_named db name v _ hb
+              | explicit v => exact ⟨(findVer_named db path name v _ hb).1, (findVer_named db path name v _ hb).2.1⟩
               | expr e => cases hb
             · split at h
               · exact ih _ _ _ _ h
@@ -84,7 +97,7 @@ theorem walk_spec (db : Db) (al : Already) (hal : AlreadyOK db al) (name : Name)
             · rename_i d' hb
               simp at h; obtain ⟨rfl, _, _⟩ := h
               cases req with
-              | explicit v => exact lookup_named db name v _ hb
+              | explicit v => exact ⟨(findVer_named db path name v _ hb).1, (findVer_named db path name v _ hb).2.1⟩
               | expr e => cases hb
             · split at h
               · exact ih _ _ _ _ h
@@ -103,27 +116,27 @@ theorem walk_spec (db : Db) (al : Already) (hal : AlreadyOK db al) (name : Name)
             simp only [if_true] at hb
             split at hb
             · split at hb
-              · exact lookup_named db name _ _ hb
+              · exact ⟨(findVer_named db path name _ _ hb).1, (findVer_named db path name _ _ hb).2.1⟩
               · cases hb
             · cases hb
           · split at h
             · rename_i d' hb
               simp at h; obtain ⟨rfl, _, _⟩ := h
               cases req with
-              | explicit v => exact lookup_named db name v _ hb
+              | explicit v => exact ⟨(findVer_named db path name v _ hb).1, (findVer_named db path name v _ hb).2.1⟩
               | expr e => cases hb
             · split at h
               · exact ih _ _ _ _ h
               · cases h
 
-theorem find_spec (db : Db) (al : Already) (hal : AlreadyOK db al) (name : Name) (version : Option VerReq)
-    (vexpr : Option VExpr) (depth : Nat) (vro : List VroEnt) (d : Decl) (r : VroEnt)
-    (h : find db al name version vexpr depth vro = some (d, r)) : Canon db d ∧ d.name = name := by
+theorem find_spec (db : Db) (path : List Nat) (al : Already) (hal : AlreadyOK db al) (name : Name)
+    (version : Option VerReq) (vexpr : Option VExpr) (depth : Nat) (vro : List VroEnt) (d : Decl) (r : VroEnt)
+    (h : find db path al name version vexpr depth vro = some (d, r)) : Canon db d ∧ d.name = name := by
   unfold find at h
   split at h
   · cases h
   · rename_i d' r' e0 hw
-    have hd' := walk_spec db al hal name version depth vro vexpr d' r' e0 hw
+    have hd' := walk_spec db path al hal name version depth vro vexpr d' r' e0 hw
     split at h
     · rename_i od oreason hg
       split at h
@@ -131,9 +144,9 @@ theorem find_spec (db : Db) (al : Already) (hal : AlreadyOK db al) (name : Name)
       · simp at h; obtain ⟨rfl, _⟩ := h; exact hd'
     · simp at h; obtain ⟨rfl, _⟩ := h; exact hd'
 
-theorem resolve_spec (db : Db) (keep : Bool) (al : Already) (hal : AlreadyOK db al) (name : Name)
+theorem resolve_spec (db : Db) (path : List Nat) (keep : Bool) (al : Already) (hal : AlreadyOK db al) (name : Name)
     (version : Option VerReq) (vexpr : Option VExpr) (depth : Nat) :
-    ∀ k vro d r, resolve db keep al name version vexpr depth k vro = .found d r → Canon db d ∧ d.name = name := by
+    ∀ k vro d r, resolve db path keep al name version vexpr depth k vro = .found d r → Canon db d ∧ d.name = name := by
   intro k
   induction k with
   | zero => intro vro d r h; simp [resolve] at h
@@ -149,7 +162,7 @@ theorem resolve_spec (db : Db) (keep : Bool) (al : Already) (hal : AlreadyOK db 
           split at hr
           · rename_i d'' r'' hf
             simp at hr; obtain ⟨rfl, _⟩ := hr
-            exact find_spec db al hal name version vexpr depth vro _ _ hf
+            exact find_spec db path al hal name version vexpr depth vro _ _ hf
           · split at hr
             · rename_i d'' r'' hg
               split at hr
